@@ -39,10 +39,25 @@ def replay_e1(pid, path):
 
 def run(pid, tier, seed, replay=None):
     if pid in E1:
+        if replay and pid in ("C01", "C02") and open(replay).read().startswith("litmus "):
+            import e3checks
+            return e3checks.replay_primitive(pid, replay)
         if replay:
             return replay_e1(pid, replay)
         import core
         rc, ev = core.run_property(E1[pid], tier, seed)
+        if pid in ("C01", "C02"):
+            # the same ordering primitives as implemented by the default (non-builtin) configuration, on real hardware
+            import e3checks, hashlib
+            pv, rows, n = e3checks.primitive_litmus(pid, tier)
+            ev["coverage"]["native_ordering_litmus"] = {"evaluations": n, "rows": rows, "kinds": [k for k, _ in e3checks.ORDERING_KINDS]}
+            ev["coverage"]["evaluations"] += n
+            rdir = os.environ.get("VERIF_REPLAY_DIR", os.path.join(VERIF, "replays")); os.makedirs(rdir, exist_ok=True)
+            for v in pv[:2]:
+                path = os.path.join(rdir, "%s-%s.case" % (pid, hashlib.blake2b(v["case"].encode(), digest_size=8).hexdigest()))
+                open(path, "w").write(v["case"] + "\n# verdict: " + v["msg"] + "\n")
+                print("VIOLATION property=%s replay=%s" % (pid, path)); print("  " + v["msg"][:600])
+                ev["violations"] += 1; rc = 1
         write_evidence(pid, ev)
         print("%s %s: %d cases, %d distinct non-trivial, %d inconclusive, %.1fs, violations=%d" % (
             pid, tier, ev["coverage"]["evaluations"], ev["coverage"]["distinct_nontrivial"], ev["coverage"]["inconclusive"], ev["wall_s"], ev["violations"]))
